@@ -39,6 +39,11 @@ pub struct Case15 {
     /// subject, 2 = first child of the subject
     #[serde(default)]
     pub sibling_place: u8,
+    /// an instance of *another* class (unknown to the database; its name sorts before (1) or
+    /// after (2) every database class) that carries a property named like the migration's
+    /// target: what one class's chunk supplies says nothing about another class's instances
+    #[serde(default)]
+    pub neighbour: u8,
 }
 
 /// every spelling that, for `class`, migrates to `new_name`
@@ -304,6 +309,10 @@ pub fn judge(c: &Case15) -> Vec<(String, String)> {
             }
         } else {
             InstanceBuilder::new("DataModel").with_child(b)
+        };
+        let root = match c.neighbour {
+            0 => root,
+            k => root.with_child(InstanceBuilder::new(if k == 1 { "AaaNeighbourClass" } else { "ZzzNeighbourClass" }).with_name("neighbour").with_property(new_name.as_str(), explicit.clone())),
         };
         WeakDom::new(root)
     };
@@ -583,16 +592,21 @@ pub fn cases() -> Vec<Case15> {
         let n = legacy_values(&class, &legacy).len();
         for value in 0..n {
             for explicit_new in [false, true] {
-                out.push(Case15 { class: class.clone(), legacy: legacy.clone(), value, explicit_new, new_spelling: None, sibling: None, sibling_place: 0 });
+                out.push(Case15 { class: class.clone(), legacy: legacy.clone(), value, explicit_new, new_spelling: None, sibling: None, sibling_place: 0, neighbour: 0 });
+            }
+            if value < 2 {
+                for neighbour in 1..3u8 {
+                    out.push(Case15 { class: class.clone(), legacy: legacy.clone(), value, explicit_new: false, new_spelling: None, sibling: None, sibling_place: 0, neighbour });
+                }
             }
             if let Lookup::Known(k) = specdb::lookup(&class, &legacy) {
                 if let Ser::Migrate { to, .. } = &k.ser {
                     for sp in alias_spellings(&class, to) {
-                        out.push(Case15 { class: class.clone(), legacy: legacy.clone(), value, explicit_new: true, new_spelling: Some(sp.clone()), sibling: None, sibling_place: 0 });
+                        out.push(Case15 { class: class.clone(), legacy: legacy.clone(), value, explicit_new: true, new_spelling: Some(sp.clone()), sibling: None, sibling_place: 0, neighbour: 0 });
                         if value < 3 {
                             for sib in legacy_spellings(&class, to) {
                                 for sibling_place in 0..3u8 {
-                                    out.push(Case15 { class: class.clone(), legacy: legacy.clone(), value, explicit_new: true, new_spelling: Some(sp.clone()), sibling: Some(sib.clone()), sibling_place });
+                                    out.push(Case15 { class: class.clone(), legacy: legacy.clone(), value, explicit_new: true, new_spelling: Some(sp.clone()), sibling: Some(sib.clone()), sibling_place, neighbour: 0 });
                                 }
                             }
                         }
@@ -601,7 +615,7 @@ pub fn cases() -> Vec<Case15> {
                         for sib in legacy_spellings(&class, to) {
                             for explicit_new in [false, true] {
                                 for sibling_place in 0..3u8 {
-                                    out.push(Case15 { class: class.clone(), legacy: legacy.clone(), value, explicit_new, new_spelling: None, sibling: Some(sib.clone()), sibling_place });
+                                    out.push(Case15 { class: class.clone(), legacy: legacy.clone(), value, explicit_new, new_spelling: None, sibling: Some(sib.clone()), sibling_place, neighbour: 0 });
                                 }
                             }
                         }
